@@ -392,23 +392,29 @@ private:
       //       and the seq-cst fence (3)
       XENIUM_THREAD_FENCE(std::memory_order_acquire);
 
+      // The orphans have to be adopted _before_ the new epoch is published. Once the new epoch is visible,
+      // other threads can already retire nodes in the new epoch and add them to the same orphan list
+      // (when they abandon their retired nodes or terminate); these nodes must not be reclaimed yet.
+      auto* adopted_orphans = orphans[new_epoch % number_epochs].adopt();
+
       // (7) - this release-CAS synchronizes-with the acquire-load (5)
       bool success = global_epoch.compare_exchange_strong(
         curr_epoch, new_epoch, std::memory_order_release, std::memory_order_relaxed);
       if (XENIUM_LIKELY(success)) {
-        reclaim_orphans(new_epoch);
+        detail::delete_objects(adopted_orphans);
+      } else if (adopted_orphans != nullptr) {
+        // some other thread has updated the epoch -> put the orphans back
+        detail::retired_nodes<> nodes{adopted_orphans, adopted_orphans};
+        while (nodes.last->next != nullptr) {
+          nodes.last = nodes.last->next;
+        }
+        orphans[new_epoch % number_epochs].add(nodes);
       }
     }
     return new_epoch;
   }
 
   void add_retired_node(detail::deletable_object* p) { retire_lists[local_epoch_idx].push(p); }
-
-  void reclaim_orphans(epoch_t epoch) {
-    auto idx = epoch % number_epochs;
-    auto* nodes = orphans[idx].adopt();
-    detail::delete_objects(nodes);
-  }
 
   unsigned critical_entries_since_update = 0;
   unsigned nested_critical_entries = 0;
